@@ -102,37 +102,49 @@ def call_gen(g, arg):
 
 
 def rules_for(g, v):
-    """All (kind, i, k) under which g reproduces v[i:i+k]."""
+    """All (kind, i, k) under which g reproduces v[i:i+k].  A kind may carry '@p': the generator is given the
+    argument without the p leading letters of the number (CHE..., a country prefix)."""
     n = len(v)
     out = set()
-    whole = call_gen(g, v)
-    for k in (1, 2):
-        for i in range(0, n - k + 1):
-            target = v[i:i + k]
-            if whole is not None and len(whole) == k and whole == target:
-                out.add(('whole', i, k))
-            r = call_gen(g, v[:i] + v[i + k:])
-            if r == target:
-                out.add(('del', i, k))
-            if i > 0:
-                r = call_gen(g, v[:i])
+    p = 0
+    while p < n and p < 4 and v[p].isalpha():
+        p += 1
+    for strip in ((0, p) if 0 < p < n - 2 else (0,)):
+        sfx = '@%d' % strip if strip else ''
+        whole = call_gen(g, v[strip:])
+        for k in (1, 2):
+            for i in range(strip, n - k + 1):
+                target = v[i:i + k]
+                if whole is not None and len(whole) == k and whole == target:
+                    out.add(('whole' + sfx, i, k))
+                r = call_gen(g, (v[:i] + v[i + k:])[strip:])
                 if r == target:
-                    out.add(('head', i, k))
-            r = call_gen(g, v[:i] + '0' * k + v[i + k:])
-            if r == target:
-                out.add(('zero', i, k))
+                    out.add(('del' + sfx, i, k))
+                if i > strip:
+                    r = call_gen(g, v[strip:i])
+                    if r == target:
+                        out.add(('head' + sfx, i, k))
+                r = call_gen(g, (v[:i] + '0' * k + v[i + k:])[strip:])
+                if r == target:
+                    out.add(('zero' + sfx, i, k))
+        if out:
+            break
     return out
 
 
 def arg_for(rule, v):
     kind, i, k = rule
+    strip = 0
+    if '@' in kind:
+        kind, s = kind.split('@')
+        strip = int(s)
     if kind == 'whole':
-        return v
+        return v[strip:]
     if kind == 'del':
-        return v[:i] + v[i + k:]
+        return (v[:i] + v[i + k:])[strip:]
     if kind == 'head':
-        return v[:i]
-    return v[:i] + '0' * k + v[i + k:]
+        return v[strip:i]
+    return (v[:i] + '0' * k + v[i + k:])[strip:]
 
 
 class _WithOptions:
@@ -216,7 +228,7 @@ def module_work(name, mod, tier, rng, viols, cells, counters, samples, probe, ca
             if not tally:
                 continue
             # prefer the rule most corpus numbers agree on; ties: 'del' first, widest
-            best = sorted(tally.items(), key=lambda kv: (-kv[1], {'del': 0, 'head': 1, 'zero': 2, 'whole': 3}[kv[0][0]], -kv[0][2]))[0]
+            best = sorted(tally.items(), key=lambda kv: (-kv[1], {'del': 0, 'head': 1, 'zero': 2, 'whole': 3}[kv[0][0].split('@')[0]], -kv[0][2]))[0]
             rule, hits = best
             nvs = len(vs[:40])
             if nvs >= 3 and hits >= 3 and 0.5 * nvs <= hits < 0.9 * nvs:
@@ -359,6 +371,48 @@ def module_work(name, mod, tier, rng, viols, cells, counters, samples, probe, ca
                         '%r (payload completed with the generated check characters) is rejected with InvalidChecksum '
                         'while %r at position %d is accepted' % (w, blamed[2], blamed[1]),
                         {'module': name, 'number': w, 'generator': blamed[0], 'kind': 'm3'})
+    # M4: payloads for which the generator yields no usable check character (a value of another length, such as the
+    # '10' of a mod-11 scheme): no character at the check position may then complete them to a valid number, or a
+    # valid number would exist whose generated check differs from the one it carries
+    for L, rules in mapped_rules.items():
+        if len(rules) != 1:
+            continue
+        gname, g, rule = rules[0]
+        kind, i, k = rule
+        if k != 1:
+            continue
+        pool = [v for v in corpus if len(v) == L][:4] + [s for s in synth if len(s) == L][:4]
+        odd = []
+        for v in pool:
+            idx = [q for q in range(L) if q != i and v[q].isdigit()]
+            if not idx:
+                continue
+            for _ in range(150 if tier == 'quick' else 4000):
+                t = list(v)
+                for q in rng.sample(idx, min(len(idx), rng.choice((2, 3, 4)))):
+                    t[q] = rng.choice('0123456789')
+                w = ''.join(t)
+                o = C.outcome(g, arg_for(rule, w))
+                evals += 1
+                if o[0] == 'ok' and isinstance(o[1], str) and len(o[1]) != k:
+                    odd.append((w, o[1]))
+        counters['payloads_without_check_character'] = counters.get('payloads_without_check_character', 0) + len(odd)
+        for w, r in odd[:60 if tier == 'quick' else 2000]:
+            cells.add((name, 'm4', L, r))
+            for c in '0123456789ABCDEFGHIJKLMNOPQRSTUVWXYZ':
+                t = w[:i] + c + w[i + 1:]
+                evals += 1
+                if mod.is_valid(t) is True:
+                    cand = candidates(name, gname, arg_for(rule, w))
+                    if cand is not None and c in cand:
+                        continue
+                    if r.upper() == c or (len(r) == 2 and r.isdigit() and c in 'XK' ):
+                        continue   # handled by the module's documented mapping of the two-digit value onto a letter
+                    add(viols, 'C05|%s|%s|number-accepted-although-generator-yields-no-check-character' % (name, gname.split('[')[0]),
+                        '%s accepts %r while %s(%r) = %r (no single check character): a valid number whose generated check differs from the one it carries' % (
+                            name, t, gname, arg_for(rule, w), r),
+                        {'module': name, 'number': t, 'generator': gname, 'rule': list(rule), 'kind': 'm1'})
+                    break
     return evals
 
 
